@@ -8,6 +8,7 @@
 //        link CAS in stabilize_right), same output format
 //   c17_deque witness2                        the same with the target link re-written by a push's
 //        private store (second half of the F15 repair)
+//   c17_deque witness3 / witness4             the mirror images of witness / witness2 (stabilize_left)
 //   c17_deque seq <seed> <first> <count>      one thread, long random operation sequences (DIFF)
 // Every case derives its randomness from (seed, case id) so a run can be resumed after a case
 // that crashed or hung the real code (the driver restarts at the next id).
@@ -189,6 +190,21 @@ static Case witness2_case()
     c.init = {{'r', 100}, {'l', 1}, {'l', 50}, {'R', 0}, {'l', 51}, {'r', 2}, {'R', 0}, {'l', 3}};
     c.progs = {{{'r', 4}},
         {{'R', 0}, {'L', 0}, {'R', 0}, {'l', 5}, {'l', 6}, {'R', 0}, {'R', 0}, {'L', 0}, {'r', 7}}};
+    return c;
+}
+
+// mirror image: left and right exchanged (stabilize_left, the left link = word 0 of the chunk)
+// (the harness drains from the left, which does not traverse left links: the victim therefore pops
+// `extra` times from the right after its push, so that a corrupted left link shows in its results)
+static Case mirror_case(Case c, int extra)
+{
+    auto flip = [](Prog& p) {
+        for (auto& o : p)
+            o.kind = o.kind == 'l' ? 'r' : o.kind == 'r' ? 'l' : o.kind == 'L' ? 'R' : 'L';
+    };
+    flip(c.init);
+    for (auto& p : c.progs) flip(p);
+    for (int i = 0; i < extra; ++i) c.progs[0].push_back({'R', 0});
     return c;
 }
 
@@ -376,14 +392,18 @@ int main(int argc, char** argv)
     std::signal(SIGABRT, die_handler);
     std::signal(SIGFPE, die_handler);
     std::signal(SIGALRM, die_handler);
-    if (mode == "witness" || mode == "witness2")
+    if (mode == "witness" || mode == "witness2" || mode == "witness3" || mode == "witness4")
     {
         vctl::Rng rng(1);
         g_case = 0;
         if (mode == "witness")
             run_lock_case("w", witness_case(), rng);
-        else
+        else if (mode == "witness2")
             run_lock_case("w2", witness2_case(), rng);
+        else if (mode == "witness3")
+            run_lock_case("w3", mirror_case(witness_case(), 3), rng);
+        else
+            run_lock_case("w4", mirror_case(witness2_case(), 2), rng);
         return 0;
     }
     for (long cs = first; cs < first + count; ++cs)
